@@ -12,7 +12,7 @@ CLAIMS = {
     'C01': dict(level='other', technique=TECH_TABLE + '; argument provenance of the entry points',
         text='Decides the finite tables through which every output edge is selected (in_result 64 rows, result transition of normal edges, flag '
              'propagation from the predecessor, transitions of coincident twins, the is_vertical atom, trivial-result table), the endpoint guards of the '
-             'splitting step, the hole/parent cases and polygon assembly, and the plumbing of the 4 impls + 4 default methods into the single routine. '
+             'splitting step, the crossing / parallel / collinear classification and parameter ranges of intersection() (polynomial identities on MIR value trees), the hole/parent cases and polygon assembly, and the plumbing of the 4 impls + 4 default methods into the single routine. '
              'Necessary, not sufficient: membership of a point in an actual output also depends on the float sweep order, which is not decided.',
         note=TB + 'Does not decide regions of actual outputs, sweep order, even-odd clause for self-crossing rings.', design='4/C01'),
     'C02': dict(level='other', technique=TECH_TABLE + '; Fig.4 parent-case table and hole/parent pairing on MIR paths',
@@ -38,7 +38,8 @@ CLAIMS = {
     'C05': dict(level='other', technique='oracle-free identities between the extracted decision tables; operation-dependent site inventory',
         text='Decides the cross-operation identities of the selection/transition tables (complementarity, inclusion-exclusion pointwise, equal transition of '
              'same-transition twins under Intersection and Union) and that the '
-             'operation influences the sweep only through the listed sites (exterior flag, early break for Intersection/Difference with the right bound).',
+             'operation influences the sweep only through the listed sites (exterior flag, early break for Intersection/Difference with the right bound); every non-collapsed edge of '
+             'every ring becomes exactly one event pair for every operation (no operation-specific cull of edges).',
         note=TB + 'Areas / disjointness of actual outputs are not decided.', design='4/C05'),
     'C06': dict(level='other', technique=TECH_TABLE + '; provenance chain for the empty-operand law',
         text='Decides fully (finite coordinates) the empty-operand and disjoint-boxes laws as a chain of static facts (initial boxes +inf/-inf, boxes '
